@@ -11,15 +11,23 @@ package smparser
 //@ spec acceptable(a *diam.AVP, typ uint32, d *dict.Parser) bool = a != nil && a.Code == typ && typeis(a.Data, datatype.Unsigned32) &&
 //@      (uint32(a.Data.(datatype.Unsigned32)) == 4294967295 || appsupported(d, uint32(a.Data.(datatype.Unsigned32)), typname(typ)))
 //@
+//@ # the same as one opaque predicate (unfolded on request: hint accavp.def(a, typ, d)); the loops below only carry it around
+//@ hfun accavp(a *diam.AVP, typ uint32, d *dict.Parser) bool reads diam.AVP.Code, diam.AVP.Data, dict.Parser.apptype, dict.Parser.appcode, dict.App.Type, map:dict.Parser.apptype, map:dict.Parser.appcode
+//@ hlemma accavp: def: forall a *diam.AVP, typ uint32, d *dict.Parser :: accavp(a, typ, d) <==> acceptable(a, typ, d)
+//@
 //@ func (*Application).validate(app, d, appType, appAVP) (failedAVP, err)
 //@   property C11
 //@   requires app != nil && d != nil
 //@   modifies app.id, app.id[len(app.id):cap(app.id)]
 //@   posthint relayorshared.def(d, uint32(appAVP.Data.(datatype.Unsigned32)))
+//@   posthint accavp.def(appAVP, appType, d)
+//@   hint idsok.def(d, app.id)
+//@   posthint idsok.def(d, app.id)
 //@   ensures [C11] nothing_to_check: appAVP == nil ==> err == nil && failedAVP == nil && len(app.id) == old(len(app.id))
-//@   ensures [C11] accepted_iff_acceptable: appAVP != nil ==> (err == nil <==> acceptable(appAVP, appType, d))
+//@   ensures [C11] accepted_iff_acceptable: appAVP != nil ==> (err == nil <==> accavp(appAVP, appType, d))
 //@   ensures [C11] records_the_id: appAVP != nil && err == nil ==> len(app.id) == old(len(app.id)) + 1 && app.id[old(len(app.id))] == uint32(appAVP.Data.(datatype.Unsigned32))
 //@   ensures [C11] recorded_id_is_shared: appAVP != nil && err == nil && (appType == 258 || appType == 259) ==> relayorshared(d, app.id[old(len(app.id))])
+//@   ensures [C11] ids_stay_shared: old(idsok(d, app.id)) && (appType == 258 || appType == 259) ==> idsok(d, app.id)
 //@   ensures [C11] rejected_records_nothing: err != nil ==> len(app.id) == old(len(app.id)) && failedAVP == appAVP
 //@   ensures [C11] cause_applies: err != nil ==> (err == ErrNoCommonApplication <==> (appAVP.Code == appType && typeis(appAVP.Data, datatype.Unsigned32)))
 //@   ensures kept: forall i int :: 0 <= i && i < old(len(app.id)) ==> app.id[i] == old(app.id[i])
@@ -33,9 +41,12 @@ package smparser
 //@ # (opaque in the loops; hint relayorshared.def(d, id) unfolds it)
 //@ hfun relayorshared(d *dict.Parser, id uint32) bool reads dict.Parser.apptype, dict.Parser.appcode, dict.App.Type, map:dict.Parser.apptype, map:dict.Parser.appcode
 //@ hlemma relayorshared: def: forall d *dict.Parser, id uint32 :: relayorshared(d, id) <==> id == 4294967295 || appsupported(d, id, "acct") || appsupported(d, id, "auth")
+//@ # every recorded id is one: opaque in the loops, unfolded in validate (hint idsok.def(d, s))
+//@ hfun idsok(d *dict.Parser, s []uint32) bool reads M:bv32, dict.Parser.apptype, dict.Parser.appcode, dict.App.Type, map:dict.Parser.apptype, map:dict.Parser.appcode
+//@ hlemma idsok: def: forall d *dict.Parser, s []uint32 :: idsok(d, s) <==> (forall k int :: 0 <= k && k < len(s) ==> relayorshared(d, s[k]))
 //@ spec listok(l []*diam.AVP) bool = forall i int :: 0 <= i && i < len(l) ==> l[i] != nil
 //@ # some AVP among the first n of l is acceptable for application type typ
-//@ spec anyacc(l []*diam.AVP, n int, typ uint32, d *dict.Parser) bool = !(forall i int :: 0 <= i && i < n ==> !acceptable(l[i], typ, d))
+//@ spec anyacc(l []*diam.AVP, n int, typ uint32, d *dict.Parser) bool = !(forall i int :: 0 <= i && i < n ==> !accavp(l[i], typ, d))
 //@
 //@ func chooseErr(curAVP, curErr, oneFound, newAvp, newErr) (a, e, f)
 //@   property C11
@@ -50,17 +61,18 @@ package smparser
 //@   modifies app.id, app.id[len(app.id):cap(app.id)], fresh
 //@   ensures [C11] accepted_iff_some_acceptable: err == nil <==> anyacc(appAVPs, len(appAVPs), appType, d)
 //@   ensures [C11] ids_recorded_iff: len(app.id) >= old(len(app.id)) && (len(app.id) > old(len(app.id)) <==> anyacc(appAVPs, len(appAVPs), appType, d))
-//@   ensures [C11] ids_shared: forall k int :: old(len(app.id)) <= k && k < len(app.id) ==> relayorshared(d, app.id[k])
-//@   ensures kept: forall k int :: 0 <= k && k < old(len(app.id)) ==> app.id[k] == old(app.id[k])
+//@   ensures [C11] ids_stay_shared: old(idsok(d, app.id)) ==> idsok(d, app.id)
 //@   ensures appended: grown(app.id, old(app.id))
 //@   ensures untouched_if_none: len(app.id) == old(len(app.id)) ==> same(app.id, old(app.id))
 //@   ensures cause: err != nil ==> err == ErrNoCommonApplication || err == ErrMissingApplication || typeis(err, *ErrUnexpectedAVP)
 //@   loop 0
 //@     invariant 0 - 1 <= rangeindex && rangeindex < len(appAVPs)
-//@     invariant [C11] found_iff: oneFound <==> anyacc(appAVPs, rangeindex + 1, appType, d)
-//@     invariant [C11] ids_iff: len(app.id) >= old(len(app.id)) && (len(app.id) > old(len(app.id)) <==> anyacc(appAVPs, rangeindex + 1, appType, d))
-//@     invariant [C11] shared: forall k int :: old(len(app.id)) <= k && k < len(app.id) ==> relayorshared(d, app.id[k])
-//@     invariant kept: forall k int :: 0 <= k && k < old(len(app.id)) ==> app.id[k] == old(app.id[k])
+//@     invariant [C11] found_only_if: oneFound ==> anyacc(appAVPs, rangeindex + 1, appType, d)
+//@     invariant [C11] found_if: anyacc(appAVPs, rangeindex + 1, appType, d) ==> oneFound
+//@     invariant [C11] ids_grow: len(app.id) >= old(len(app.id))
+//@     invariant [C11] ids_only_if: len(app.id) > old(len(app.id)) ==> anyacc(appAVPs, rangeindex + 1, appType, d)
+//@     invariant [C11] ids_if: anyacc(appAVPs, rangeindex + 1, appType, d) ==> len(app.id) > old(len(app.id))
+//@     invariant [C11] shared: old(idsok(d, app.id)) ==> idsok(d, app.id)
 //@     invariant appended: grown(app.id, old(app.id))
 //@     invariant untouched_if_none: len(app.id) == old(len(app.id)) ==> same(app.id, old(app.id))
 //@     invariant err_cause: err != nil ==> err == ErrNoCommonApplication || err == ErrMissingApplication || typeis(err, *ErrUnexpectedAVP)
@@ -71,7 +83,7 @@ package smparser
 //@ # a Vendor-Specific-Application-Id group is well formed / offers an acceptable application among its first n members
 //@ spec groupok(g *diam.AVP) bool = g != nil && (typeis(g.Data, *diam.GroupedAVP) ==> g.Data.(*diam.GroupedAVP) != nil && listok(g.Data.(*diam.GroupedAVP).AVP))
 //@ spec groupacc(g *diam.AVP, n int, d *dict.Parser) bool = typeis(g.Data, *diam.GroupedAVP) &&
-//@      !(forall j int :: 0 <= j && j < n ==> !(acceptable(g.Data.(*diam.GroupedAVP).AVP[j], 259, d) || acceptable(g.Data.(*diam.GroupedAVP).AVP[j], 258, d)))
+//@      !(forall j int :: 0 <= j && j < n ==> !(accavp(g.Data.(*diam.GroupedAVP).AVP[j], 259, d) || accavp(g.Data.(*diam.GroupedAVP).AVP[j], 258, d)))
 //@ spec vslen(g *diam.AVP) int = len(g.Data.(*diam.GroupedAVP).AVP)
 //@ # the same as one opaque predicate of the group (its definition is unfolded on request: hint accgroup.def(g, d))
 //@ hfun accgroup(g *diam.AVP, d *dict.Parser) bool reads diam.AVP.Code, diam.AVP.Data, diam.GroupedAVP, M:ref, dict.Parser.apptype, dict.Parser.appcode, dict.App.Type, map:dict.Parser.apptype, map:dict.Parser.appcode
@@ -91,17 +103,19 @@ package smparser
 //@   posthint accgroup.def(gavp, d)
 //@   ensures [C11] acceptable_member_accepts: accgroup(gavp, d) ==> err == nil
 //@   ensures [C11] ids_recorded_iff: len(app.id) >= old(len(app.id)) && (len(app.id) > old(len(app.id)) <==> accgroup(gavp, d))
-//@   ensures [C11] ids_shared: forall k int :: old(len(app.id)) <= k && k < len(app.id) ==> relayorshared(d, app.id[k])
-//@   ensures kept: forall k int :: 0 <= k && k < old(len(app.id)) ==> app.id[k] == old(app.id[k])
+//@   ensures [C11] ids_stay_shared: old(idsok(d, app.id)) ==> idsok(d, app.id)
 //@   ensures appended: grown(app.id, old(app.id))
 //@   ensures untouched_if_none: len(app.id) == old(len(app.id)) ==> same(app.id, old(app.id))
 //@   ensures cause: err != nil ==> err == ErrNoCommonApplication || err == ErrMissingApplication || typeis(err, *ErrUnexpectedAVP)
 //@   loop 0
 //@     invariant 0 - 1 <= rangeindex && rangeindex < vslen(gavp) && typeis(gavp.Data, *diam.GroupedAVP) && group == gavp.Data.(*diam.GroupedAVP)
+//@     hint accavp.def(group.AVP[rangeindex + 1], 259, d)
+//@     hint accavp.def(group.AVP[rangeindex + 1], 258, d)
 //@     invariant [C11] success_if: groupacc(gavp, rangeindex + 1, d) ==> success
-//@     invariant [C11] ids_iff: len(app.id) >= old(len(app.id)) && (len(app.id) > old(len(app.id)) <==> groupacc(gavp, rangeindex + 1, d))
-//@     invariant [C11] shared: forall k int :: old(len(app.id)) <= k && k < len(app.id) ==> relayorshared(d, app.id[k])
-//@     invariant kept: forall k int :: 0 <= k && k < old(len(app.id)) ==> app.id[k] == old(app.id[k])
+//@     invariant [C11] ids_grow: len(app.id) >= old(len(app.id))
+//@     invariant [C11] ids_only_if: len(app.id) > old(len(app.id)) ==> groupacc(gavp, rangeindex + 1, d)
+//@     invariant [C11] ids_if: groupacc(gavp, rangeindex + 1, d) ==> len(app.id) > old(len(app.id))
+//@     invariant [C11] shared: old(idsok(d, app.id)) ==> idsok(d, app.id)
 //@     invariant appended: grown(app.id, old(app.id))
 //@     invariant untouched_if_none: len(app.id) == old(len(app.id)) ==> same(app.id, old(app.id))
 //@     invariant err_cause: err != nil ==> err == ErrNoCommonApplication || err == ErrMissingApplication || typeis(err, *ErrUnexpectedAVP)
@@ -121,14 +135,17 @@ package smparser
 //@   modifies app.id, fresh
 //@   ensures [C11] accepted_iff_common_application: err == nil <==> common(app, d)
 //@   ensures [C11] ids_nonempty: err == nil ==> len(app.id) > 0
-//@   ensures [C11] ids_shared: forall k int :: 0 <= k && k < len(app.id) ==> relayorshared(d, app.id[k])
+//@   hint idsok.def(d, app.id)
+//@   ensures [C11] ids_shared: idsok(d, app.id)
 //@   ensures [C11] cause: err != nil ==> err == ErrNoCommonApplication || err == ErrMissingApplication || typeis(err, *ErrUnexpectedAVP)
 //@   loop 0
 //@     invariant 0 - 1 <= rangeindex && rangeindex < len(app.VendorSpecificApplicationID)
-//@     invariant [C11] ids_iff: len(app.id) > 0 <==> (anyacc(app.AcctApplicationID, len(app.AcctApplicationID), 259, d) ||
+//@     invariant [C11] ids_only_if: len(app.id) > 0 ==> (anyacc(app.AcctApplicationID, len(app.AcctApplicationID), 259, d) ||
 //@          anyacc(app.AuthApplicationID, len(app.AuthApplicationID), 258, d) || anygroup(app.VendorSpecificApplicationID, rangeindex + 1, d))
+//@     invariant [C11] ids_if: (anyacc(app.AcctApplicationID, len(app.AcctApplicationID), 259, d) ||
+//@          anyacc(app.AuthApplicationID, len(app.AuthApplicationID), 258, d) || anygroup(app.VendorSpecificApplicationID, rangeindex + 1, d)) ==> len(app.id) > 0
 //@     invariant [C11] found_if: len(app.id) > 0 ==> oneFound
-//@     invariant [C11] shared: forall k int :: 0 <= k && k < len(app.id) ==> relayorshared(d, app.id[k])
+//@     invariant [C11] shared: idsok(d, app.id)
 //@     invariant fresh_ids: len(app.id) >= 0 && (len(app.id) == 0 ==> app.id == nil && cap(app.id) == 0) && (cap(app.id) == 0 || fresh(app.id))
 //@     invariant err_kind: !oneFound ==> err != nil
 //@     invariant err_cause: err != nil ==> err == ErrNoCommonApplication || err == ErrMissingApplication || typeis(err, *ErrUnexpectedAVP)
@@ -141,7 +158,8 @@ package smparser
 //@ # is a group has non-nil members; Inband-Security-Id, defined Unsigned32 by the dictionary, carries an Unsigned32.
 //@ ghost unmarshalled(*diam.Message) bool
 //@ spec cerwf(cer *CER) bool = listok(cer.AcctApplicationID) && listok(cer.AuthApplicationID) && groupsok(cer.VendorSpecificApplicationID) &&
-//@      (cer.InbandSecurityID != nil ==> typeis(cer.InbandSecurityID.Data, datatype.Unsigned32))
+//@      (cer.InbandSecurityID != nil ==> typeis(cer.InbandSecurityID.Data, datatype.Unsigned32)) && ostateok(cer)
+//@ spec ostateok(cer *CER) bool = cer.OriginStateID != nil ==> cer.OriginStateID.Data != nil && valid(cer.OriginStateID.Data) && !typeis(cer.OriginStateID.Data, *diam.GroupedAVP)
 //@ func (*diam.Message).Unmarshal(m, dst) (err)
 //@   property C11 C12 C13 C18
 //@   trusted
@@ -149,6 +167,7 @@ package smparser
 //@   modifies dst.(*CER).*, dst.(*CEA).*, dst.(*DWR).*, dst.(*DWA).*, unmarshalled(m)
 //@   ensures result_recorded: unmarshalled(m) <==> err == nil
 //@   ensures cer_shape: err == nil && typeis(dst, *CER) ==> cerwf(dst.(*CER))
+//@   ensures cer_origin_state: typeis(dst, *CER) ==> ostateok(dst.(*CER))
 //@   ensures own_errors: err != ErrNoCommonSecurity && err != ErrNoCommonApplication && err != ErrMissingApplication
 //@ end
 //@
@@ -166,11 +185,19 @@ package smparser
 //@   ensures cause: err != nil ==> err == ErrMissingOriginHost || err == ErrMissingOriginRealm
 //@ end
 //@
+//@ # ghosts for the callers of CER.Parse: its verdict on the message and the struct it filled
+//@ ghost cerverdict(*diam.Message) error
+//@ ghost cerof(*diam.Message) *smparser.CER
 //@ func (*CER).Parse(cer, m, localRole) (failedAVP, err)
 //@   property C11
+//@   ghostset cerverdict(m) = err
+//@   ghostset cerof(m) = cer
+//@   ensures verdict_noted: cerverdict(m) == err && cerof(m) == cer
+//@   ensures origin_state_usable: ostateok(cer)
 //@   requires cer != nil && m != nil && (m.dictionary != nil ==> pwf(m.dictionary))
-//@   modifies cer.*, unmarshalled(m), fresh
+//@   modifies cer.*, unmarshalled(m), cerverdict(m), cerof(m), fresh
 //@   ensures [C11] accepted_exactly_when: err == nil <==> unmarshalled(m) && named(cer) && !wantssecurity(cer) && commoncer(cer, dictof(m))
+//@   posthint idsok.def(dictof(m), cer.appID)
 //@   ensures [C11] shared_ids_recorded: err == nil ==> len(cer.appID) > 0 && (forall k int :: 0 <= k && k < len(cer.appID) ==> relayorshared(dictof(m), cer.appID[k]))
 //@   ensures [C11] security_cause_applies: err == ErrNoCommonSecurity ==> unmarshalled(m) && wantssecurity(cer)
 //@   ensures [C11] application_cause_applies: err == ErrNoCommonApplication ==> unmarshalled(m) && !commoncer(cer, dictof(m))
